@@ -17,7 +17,7 @@ def register(PROPS):
         'claim': 'For every limit in the bound, written as DTEND, as DURATION in every legal RFC 5545 spelling (with and without a '
                  'leading +) on a single and on a recurring event, the number of seconds echsx arms for the run equals the limit; for '
                  'execution requests with DUE, echsx arms due - now for three positions of the clock and refuses a DUE in the past '
-                 'with the documented journal entry without starting the job (DUE equal to now: refused or killed at once, never started without a timer).  Limits given as local times of two zones (DTSTART and DTEND with TZID, 3-4 events per file, every pattern of Europe/Berlin and America/New_York, five limits) must come out of echsq with the same span for every event.  Real runs: jobs outliving a 1 s / 2 s limit die '
+                 'with the documented journal entry without starting the job (DUE equal to now: refused or killed at once, never started without a timer).  Limits given as local times of two zones (DTSTART and DTEND with TZID, 3-4 events per file, every pattern of Europe/Berlin and America/New_York, five limits) must come out of echsq with the same span for every event; five limits whose DTSTART and DTEND are local times on the two sides of a DST switch of their zone (Berlin and New York, spring and autumn 2031, plus a control) must come out as the real time between them.  Real runs: jobs outliving a 1 s / 2 s limit die '
                  'within [limit, limit + 4 s] with the signal in the journal, a job finishing earlier is unaffected; this holds for every request of a '
                  'stream of two or three requests handled by one echsx process (what one request leaves behind - handler, pending alarm - meets the next).',
         'note': 'The end-to-end clause is "seconds armed in echsx == limit".  The hand-overs in between (text echsq sends, duration the '
